@@ -248,8 +248,6 @@ def v_connector_board(inst: Any, p: Dict[str, Any], ctx: Dict[str, Any]) -> List
                         f"agent {i}: its cells do not connect start {list(s)} to target {list(t)}; solved={solved.tolist()}"))
         total_path += int(mine.sum()) - 2
     ctx["count"]["connector_path_cells"] += total_path
-    # the blocked-start situation, diagnosed structurally on healthy boards too: a start all of whose
-    # in-grid neighbours are starts / first cells of lower-numbered agents
     return out
 
 
@@ -511,7 +509,6 @@ def v_sokoban(inst: Any, p: Dict[str, Any], ctx: Dict[str, Any]) -> List[Problem
             ctx["count"]["sokoban_levels_solved_by_bfs"] += int(cache[key] is True)
         if cache[key] is False:
             out.append(("level-not-solvable", "BFS over all push sequences finds no solution"))
-    ctx["count"][f"sokoban_level_{hash(var.tobytes()) % 1000}"] += 0
     return out
 
 
